@@ -37,7 +37,9 @@ def instances(tier, seed):
     out = []
     cfgs = [('PIT', {'fam': 'T1', 'K': 2, 'C': 2}, ['none', 'discrete_cost']), ('PIT', {'fam': 'L1'}, ['none']),
             ('MPS', {'fam': 'ML', 'bn': False, 'wtype': 'layer', 'w': [2, 8], 'a': [4, 8]}, ['none', 'temperature', 'hard', 'gumbel']),
-            ('SuperNet', {'n': 2, 'kind': 'conv'}, ['none', 'temperature', 'hard'])]
+            ('SuperNet', {'n': 2, 'kind': 'conv'}, ['none', 'temperature', 'hard']),
+            ('SuperNet', {'n': 2, 'kind': 'conv', 'gumbel': True}, ['train_forward']),
+            ('MPS', {'fam': 'ML', 'bn': False, 'wtype': 'layer', 'w': [2, 8], 'a': [4, 8], 'mps': {'disable_sampling': True}}, ['none'])]
     if tier == 'thorough':
         cfgs += [('PIT', {'fam': 'T2', 'K0': 2, 'K1': 2, 'T': 3}, ['none', 'discrete_cost']), ('MPS', {'fam': 'MD', 'wtype': 'layer', 'w': [2, 8], 'a': [4, 8]}, ['none', 'temperature', 'hard']),
                  ('SuperNet', {'n': 3, 'kind': 'mix'}, ['none', 'temperature', 'hard']), ('SuperNet', {'n': 2, 'kind': 'mix', 'blocks': 2}, ['none', 'temperature+hard'])]
@@ -65,7 +67,7 @@ def cost_names(method):
     return ('params_bit', 'ops_bit') if method == 'MPS' else ('params', 'ops')
 
 
-def apply_prefix(method, w, pre, T):
+def apply_prefix(method, w, pre, T, xin=None):
     for op in pre.split('+'):
         if op == 'none':
             continue
@@ -77,9 +79,14 @@ def apply_prefix(method, w, pre, T):
             w.update_softmax_options(gumbel=True)
         elif op == 'discrete_cost':
             w.discrete_cost = True
+        elif op == 'train_forward':
+            # a training-mode forward pass after the last option update, then back to eval for the observation
+            w.train()
+            w(xin)
+            w.eval()
 
 
-def symbolify(model, prefix, fresh, ex=None, sym_weights=True):
+def symbolify(model, prefix, fresh, ex=None, sym_weights=True, conc_theta=False):
     """replace every floating parameter / buffer by a SymTensor (fresh symbolic, or holding the concrete values)"""
     syms = {}
     for mn, mod in model.named_modules():
@@ -90,6 +97,11 @@ def symbolify(model, prefix, fresh, ex=None, sym_weights=True):
                 # constant buffers (precision tables, keep-alive vectors, comb matrices, calculator constants) are written once at
                 # construction and drive python control flow: they keep their values; everything a search can change is symbolic
                 mutable = (d is mod._parameters or k in ('running_mean', 'running_var', 'theta_alpha', 'temperature')) and k != 'clip_val'
+                if fresh and conc_theta and k == 'theta_alpha' and v.shape[0] > 1:
+                    # sampling disabled: the stored coefficients are what is evaluated; a concrete non-default probability vector is checkpointed
+                    mutable = False
+                    with torch.no_grad():
+                        v = torch.softmax(torch.arange(v.shape[0], dtype=torch.float32) * 0.7, dim=0).reshape([-1] + [1] * (v.dim() - 1)).expand_as(v).clone()
                 if fresh and not sym_weights and k in ('weight', 'bias') and d is mod._parameters:
                     # MPS: symbolic weights fork inside every weight/bias quantiser; a concrete perturbation of the initial weights is checkpointed instead
                     mutable = False
@@ -140,13 +152,24 @@ def concrete_case(rec):
                 sdA[k].fill_(3.5)
             elif method == 'MPS' and (k.endswith('.weight') or k.endswith('.bias')):
                 sdA[k].add_(0.125)
+            elif method == 'MPS' and spec.get('mps', {}).get('disable_sampling') and k.endswith('theta_alpha') and sdA[k].shape[0] > 1:
+                v = sdA[k]
+                sdA[k].copy_(torch.softmax(torch.arange(v.shape[0], dtype=torch.float32) * 0.7, dim=0).reshape([-1] + [1] * (v.dim() - 1)).expand_as(v))
         for k, vals in rec.get('state', {}).items():
             if k in sdA and sdA[k].dtype.is_floating_point and len(vals) == sdA[k].numel():
                 sdA[k].copy_(torch.tensor([float(Fraction(v)) for v in vals], dtype=sdA[k].dtype).reshape(sdA[k].shape))
     A.load_state_dict(sdA)
+    if method == 'MPS' and spec.get('mps', {}).get('disable_sampling'):
+        # write the stored coefficients on the modules themselves (the state under test may not even be part of the state_dict)
+        from plinio.methods.mps.nn.qtz import MPSBaseQtz
+        for q in A.modules():
+            if isinstance(q, MPSBaseQtz) and q.theta_alpha.shape[0] > 1:
+                v = q.theta_alpha
+                q.theta_alpha = torch.softmax(torch.arange(v.shape[0], dtype=torch.float32) * 0.7, dim=0).reshape([-1] + [1] * (v.dim() - 1)).expand_as(v).clone()
     T = float(Fraction(rec.get('T', 1)))
-    apply_prefix(method, A, rec['prefix'], T)
     x = torch.tensor([float(Fraction(v)) for v in rec['x']], dtype=torch.float32).reshape((1,) + tuple(shape))
+    torch.manual_seed(3)
+    apply_prefix(method, A, rec['prefix'], T, x)
     torch.manual_seed(0)
     with torch.no_grad():
         A(x)
@@ -186,12 +209,12 @@ def run_instance(p):
     def fn(ex):
         A, B = copy.deepcopy(A0), copy.deepcopy(B0)
         with SymMode():
-            syms = symbolify(A, 'A', True, ex, sym_weights=(method != 'MPS'))
+            syms = symbolify(A, 'A', True, ex, sym_weights=(method != 'MPS'), conc_theta=bool(spec.get('mps', {}).get('disable_sampling')))
             symbolify(B, 'B', False)
             T = z3.Real('T')
             ex.assume(T >= Fraction(1, 20), T <= 20)
-            apply_prefix(method, A, pre, SymTensor.from_array(np.array(T, dtype=object), torch.float32) if method == 'MPS' else st.SymScalar(T))
             x = SymTensor.fresh('x', (1,) + tuple(shape))
+            apply_prefix(method, A, pre, SymTensor.from_array(np.array(T, dtype=object), torch.float32) if method == 'MPS' else st.SymScalar(T), x)
             if method == 'MPS':
                 for v in x.elems():
                     ex.assume(v >= 0, v <= 8)
